@@ -88,8 +88,24 @@ def _check_content(model, before: dict, scn: dict, out: list) -> None:
         out.append({"scn": scn, "detail": {"what": "model content changed", "changed": changed, "before": before, "after": after}})
 
 
-def _decoys(vars_):
-    return {v: 7.0 + j for j, v in enumerate(vars_)}
+def _decoys(vars_, zero: bool = True):
+    """Initial values the model holds while the state is supplied through variables=; the last one is ZERO (an empty
+    pool is a regular initial value: it must be overridden by the supplied state and be back afterwards)."""
+    return {v: (0.0 if zero and j == len(vars_) - 1 and j > 0 else 7.0 + j) for j, v in enumerate(vars_)}
+
+
+class _SkipZeroColumns:
+    """A relative displacement of a zero value is no displacement (Mca.tla: Quot is undefined there): the routines answer
+    NaN in that column; the column is outside the specification."""
+
+    def __init__(self, table, env):
+        self.table, self.env = table, env
+
+    def __getitem__(self, col):
+        row = self.table[col]
+        if self.env[col] == 0.0:
+            return {r: {"n": 0, "d": 0} for r in row}
+        return row
 
 
 class _ScaledTable:
@@ -120,7 +136,7 @@ def elasticity_cases(pt: dict, rnd: random.Random, scaled: bool = False) -> tupl
     stats = {"cases": 0, "worst": 0.0}
     state = {v: env[v] for v in vars_}
     for with_vars in (False, True):
-        model, _ = build(pt, inits=_decoys(vars_) if with_vars else None, scaled=scaled)
+        model, _ = build(pt, inits=_decoys(vars_, zero=pt["net"] != "pl") if with_vars else None, scaled=scaled)
         if not with_vars:
             # spec validation: the float interpreter of the trees against the specification's exact fluxes
             f = model.get_fluxes()
@@ -138,6 +154,7 @@ def elasticity_cases(pt: dict, rnd: random.Random, scaled: bool = False) -> tupl
                            "normalized": normalized, "with_variables": with_vars, "to_scan": to_scan, "parallel": False,
                            "scaled_twin": scaled}
                     exp_tab = _ScaledTable(tab, pt, unscaled_coefficient=not normalized) if scaled else tab
+                    exp_tab = _SkipZeroColumns(exp_tab, env)
                     before = content_of(model)
                     stats["cases"] += 1
                     try:
@@ -218,7 +235,7 @@ def response_cases(pt: dict, rnd: random.Random, parallel_too: bool) -> tuple[li
         cols = pars if to_scan is None else to_scan
         results = {}
         for parallel in ([False, True] if parallel_too else [False]):
-            model, _ = build(pt, inits=_decoys(vars_) if with_vars else None)
+            model, _ = build(pt, inits=_decoys(vars_, zero=pt["net"] != "pl") if with_vars else None)
             scn = {"kind": "response", "routine": "response_coefficients", "net": pt["net"], "env": pt["env"],
                    "normalized": normalized, "with_variables": with_vars, "to_scan": to_scan, "parallel": parallel,
                    "displacement": h}
@@ -270,10 +287,65 @@ def _seq_point(item):
     return out, st, st2
 
 
+def mc_cases(pt: dict, rnd: random.Random) -> tuple[list, int]:
+    """The Monte-Carlo counterparts mxlpy.mc.*: every row of mc_to_scan is the point itself (the scanned parameter at
+    its own value) plus a column naming a model VARIABLE with a decoy value: the explicit state wins, every row's table
+    is the point's table, and the caller's model is what it was."""
+    import pandas as pd
+    from mxlpy import mc
+
+    vars_, pars, rxns = _tabs(pt)
+    env = {k: fl(v) for k, v in pt["env"].items()}
+    flux = {r: fl(v) for r, v in pt["flux"].items()}
+    state = {v: env[v] for v in vars_}
+    out: list = []
+    n = 0
+    normalized = rnd.random() < 0.5
+    rows = pd.DataFrame({pars[0]: [env[pars[0]]] * 2, vars_[0]: [9.0, 11.0]})
+
+    def abs_el(c, r):
+        return 1e-9 * (1.0 if normalized else max(abs(flux[r]), 1e-3) / abs(env[c])) + 1e-12
+
+    calls = [("variable_elasticities", dict(to_scan=None), pt["evs" if normalized else "evu"], vars_, rxns, abs_el, REL_EL),
+             ("parameter_elasticities", dict(to_scan=list(pars)), pt["eps" if normalized else "epu"], pars, rxns, abs_el, REL_EL)]
+    if pt["hasss"]:
+        calls.append(("response_coefficients", dict(to_scan=list(pars), disable_tqdm=True), None, pars, vars_, None, REL_RC))
+    for routine, kw, tab, cols, rws, abs_of, rel in calls:
+        model, _ = build(pt, inits=_decoys(vars_, zero=pt["net"] != "pl"))
+        scn = {"kind": "mc", "routine": f"mc.{routine}", "net": pt["net"], "env": pt["env"], "normalized": normalized,
+               "with_variables": True, "parallel": True}
+        before = content_of(model)
+        n += 1
+        try:
+            res = getattr(mc, routine)(model, mc_to_scan=rows, variables=dict(state), normalized=normalized,
+                                       displacement=H, max_workers=2, **kw)
+        except Exception as e:  # noqa: BLE001
+            out.append({"scn": scn, "detail": {"what": "exception", "exc": f"{type(e).__name__}: {e}"[:300]}})
+            continue
+        for k in rows.index:
+            if routine == "response_coefficients":
+                class _One:     # one row's tables in the shape _rc_compare reads
+                    variables = res.variables.loc[k]
+                    fluxes = res.fluxes.loc[k]
+                bad = _rc_compare(pt, _One, normalized, cols, H)
+            else:
+                bad = cmp_frame(res.loc[k], _SkipZeroColumns(tab, env), cols, rws, rel, abs_of)
+            if "ok" not in bad:
+                out.append({"scn": {**scn, "row": int(k)}, "detail": bad})
+                break
+        _check_content(model, before, scn, out)
+    return out, n
+
+
 def _par_point(item):
     pt, seed = item
     rnd = random.Random(f"par/{seed}/{json.dumps(pt['env'], sort_keys=True)}/{pt['net']}")
-    return response_cases(pt, rnd, parallel_too=True)
+    devnull = os.open(os.devnull, os.O_WRONLY)      # mc.* cannot switch its progress bars off
+    os.dup2(devnull, 2)
+    out, st = response_cases(pt, rnd, parallel_too=True)
+    o2, n = mc_cases(pt, rnd)
+    st["mc"] = n
+    return out + o2, st
 
 
 def classify(scn: dict, detail: dict) -> str | None:
@@ -282,6 +354,9 @@ def classify(scn: dict, detail: dict) -> str | None:
             and detail.get("what") == "model content changed" and "initial" in detail.get("changed", [])
             and "parameters" not in detail.get("changed", [])):
         return "y0-persists"
+    if (scn.get("routine") == "mc.response_coefficients" and detail.get("what") == "model content changed"
+            and "initial" in detail.get("changed", []) and "parameters" not in detail.get("changed", [])):
+        return "mc-y0-persists"
     return None
 
 
@@ -378,12 +453,13 @@ def run(ctx: Ctx) -> int:
     from concurrent.futures import ProcessPoolExecutor
     import multiprocessing as mp
 
-    n_parcalls = 0
+    n_parcalls = n_mc = 0
     with ProcessPoolExecutor(max_workers=4, mp_context=mp.get_context("fork")) as ex:
         for pt, (bads, st) in zip(par_pts, ex.map(_par_point, [(p, ctx.seed) for p in par_pts])):
             rep.replayed += 1
             n_rc += st["cases"]
             n_parcalls += st["parallel"]
+            n_mc += st.get("mc", 0)
             worst_rc = max(worst_rc, st["worst"])
             for b in bads:
                 rep.mismatch(b["scn"], b["detail"], classify(b["scn"], b["detail"]))
@@ -392,6 +468,7 @@ def run(ctx: Ctx) -> int:
     rep.notes["elasticity_tables_compared"] = n_el
     rep.notes["response_coefficient_calls_compared"] = n_rc
     rep.notes["of_which_parallel"] = n_parcalls
+    rep.notes["mc_wrapper_calls_compared"] = n_mc
     rep.notes["largest_fraction_of_tolerance_used"] = {"elasticities": worst_el, "response_coefficients": worst_rc}
     if n_el < 1000 or n_rc < 300 or n_parcalls < 20:
         raise MachineryError(f"too few cases: elasticities {n_el}, response {n_rc}, parallel {n_parcalls}")
